@@ -245,6 +245,8 @@ def run(cx):
     inst_release(cx, "C09.v")
     from props.C17 import timers_scheduled
     timers_scheduled(cx, "C09.w")
+    from props.C07 import inst_config_mirror
+    inst_config_mirror(cx, "C09.x")
     # a resend entry must name the frame its datagram actually left in: a fragment closed into the previous frame
     # but logged under the next one is never resent when that frame is lost, and the flush never completes
     from props.shared import resend_ref_in_own_frame
